@@ -18,6 +18,7 @@ CONSTANTS
   ThrInc = 10000
   MaxClk = 0
   OldPopOrder = FALSE
+  OldTimeCharge = FALSE
   XFlags = {}
   MaxDepth = 2
   MaxFrames = 0
